@@ -75,6 +75,13 @@ TInternal == /\ l > 0 /\ l <= Len(X.steps) /\ pc \in {"open", "loop", "roll"}
              /\ Step
              /\ UNCHANGED <<t, l, verdict, prev>>
 
+(* An empty highest-numbered file and its absence are the same store: the property speaks about the records read back, *)
+(* and "a new file is started when the next record would not fit" says nothing about WHEN the (still empty) file appears *)
+(* on disk (an empty batch on an empty directory may or may not leave an empty blk00000.dat behind).                     *)
+NormDir(d) == IF DOMAIN d = {} THEN d
+              ELSE LET m == CHOOSE x \in DOMAIN d : \A n \in DOMAIN d : n <= x
+                   IN IF d[m] = <<>> THEN [n \in DOMAIN d \ {m} |-> d[n]] ELSE d
+
 BatchVerdict(o) ==
     LET d == ObsDir(o) IN
     IF o.stray > 0 \/ ~ConsecutiveOf(d) THEN "numbering"
@@ -84,7 +91,7 @@ BatchVerdict(o) ==
     ELSE IF ~RecordStreamOf(d, requested) THEN "record-stream"
     ELSE IF ~WholeOf(d) THEN "record-stream"
     ELSE IF ~Ev.ok THEN "write-raised"
-    ELSE IF d # disk THEN "file-boundary-differs"      \* all records there, but a new file was started although the record fitted
+    ELSE IF NormDir(d) # NormDir(disk) THEN "file-boundary-differs"      \* all records there, but a new file was started although the record fitted
     ELSE "ok"
 
 CrashVerdictOne(o) ==
